@@ -18,7 +18,7 @@ var thoroughExtra = map[string][]string{
 	"C04": {"SIBLING-1", "SIBLING-3", "TOTAL-1"},
 	"C05": {"UN-1", "KINDSW", "LEX~LEX-7"},
 	"C06": {"SIBLING-1", "SIBLING-2", "BC-1", "TC"},
-	"C07": {"SIBLING-9", "EFFECT-3", "CONV", "EFFECT-7"},
+	"C07": {"EFFECT-3", "EFFECT-7"},
 	"C08": {"SORTLESS-2", "DS~DS-2"},
 	"C09": {"PARSE"},
 	"C10": {"TC", "PARSE", "LAZY", "TRAVERSE-1"},
@@ -46,7 +46,7 @@ var props = map[string]propSpec{
 	"C04": ps("IEEE arithmetic, the tolerance comparison, rune counting, set semantics, strtotime (a C library), literal decoding: values are not computed by static analysis; only that the VM twin of each built-in is the same expression, that integer rendering is guarded, and that every built-in is registered", "SIBLING-2", "INTGUARD-1", "INTGUARD-2", "SIG-1", "SIG-2", "SETORD-1", "SPEC-1", "SPEC-2", "BC-1", "BC-7", "IDENT-2", "IDENT-1"),
 	"C05": ps("completeness/soundness of Unify as an algorithm (C17); the 'if and only if' as a whole", "TC", "EQ-FIELDS", "UN-1", "KEY-1", "KINDSW", "PAIR-1", "SIBLING-9", "DS~DS-2"),
 	"C06": ps("user-registered lazy functions' own bodies; that a thunk forced twice evaluates twice is the same in all back ends by shape", "LAZY", "SIBLING-3", "SIBLING-8", "SIBLING-6", "SIBLING-7", "POPORDER-1", "BC-3", "DS~DS-2", "DS-9", "TRAVERSE-1", "EFFECT-5"),
-	"C07": ps("whether types.Equals is the right relation for host data of equal shape (C15/C17)", "ENVCHK", "PANIC-1", "EQ-FIELDS", "LAYOUT", "CONV", "EFFECT-2"),
+	"C07": ps("whether types.Equals is the right relation for host data of equal shape (C15/C17)", "ENVCHK", "PANIC-1", "EQ-FIELDS", "LAYOUT", "CONV", "EFFECT-2", "SIBLING-9"),
 	"C08": ps("equality with a reference precedence parser for all operator tables; syntax-error classification of arbitrary token sequences", "PARSE", "EFFECT-2", "LEX~LEX-7"),
 	"C09": ps("agreement with a reference maximal-munch lexer on all strings; the regular languages of the literal patterns", "LEX", "LEX-8", "SORTLESS-2", "EFFECT-2", "EFFECT-7"),
 	"C10": ps("the semantic half (same value or fail alike) beyond operand order and callee; it follows from C03/C05 for the explicit call", "DS", "DS-7", "DS-9", "SIBLING-4", "LEX-8", "LEX~LEX-7"),
